@@ -57,10 +57,15 @@ Proof. exact chan_wf_example. Qed.
 Print Assumptions C16_save_init_hypotheses_inhabited.
 
 Theorem C16_save_init_timeout_refuted :
-  exists o m c g o' m' c0,
-    init_by_options o m = Ok c /\ c_timeout c = 3000000000%Z /\ has (c_optmask c) B_TIMEOUTMS = true /\
-    save_options g (mkChan (c_flags c) (c_timeout c) 3 1 0 false 0 0 0 0 [] [] (Some s_fb) 1232 3600 0 (c_optmask c) 10 5000 0
-                           [mkServer loopback 53 53 [] 0] [] 0 [] None) = Ok (o', m') /\
-    init_by_options o' m' = Ok c0 /\ has (c_optmask c0) B_TIMEOUTMS = false /\ c_timeout c0 = 0%Z.
+  option_map c_timeout (match init_by_options (mkOpts 0 3000000 0 0 0 0 0 0 [] [] None 0 [] 0 0 0 0 0 0) 2 with Ok c => Some c | _ => None end)
+    = Some (c_timeout wt_chan) /\
+  Z.testbit (c_optmask wt_chan) B_TIMEOUTMS = true /\
+  match save_options 0 wt_chan with
+  | Ok (o', m') => match init_by_options o' m' with
+                   | Ok c0 => Z.testbit (c_optmask c0) B_TIMEOUTMS = false /\ c_timeout c0 = 0%Z
+                   | _ => False
+                   end
+  | _ => False
+  end.
 Proof. exact save_init_timeout_refuted. Qed.
 Print Assumptions C16_save_init_timeout_refuted.
